@@ -301,11 +301,35 @@ fn read_from_terminal<S: TexlangState>(
             underlying_error: err,
         }));
     }
+    if buffer.is_empty() {
+        // The terminal is at the end of its input: every line, even an empty one,
+        // ends with a newline character. Without this check a \read that is waiting
+        // for a closing brace would ask for another line forever.
+        // TeX.2021.71: fatal_error("End of file on the terminal!")
+        return Err(input.fatal_error(TerminalEndOfFileError {}));
+    }
     let trace_key_range =
         input
             .tracer_mut()
             .register_source_code(None, trace::Origin::Terminal, &buffer);
     Ok(Box::new(lexer::Lexer::new(buffer, trace_key_range)))
+}
+
+#[derive(Debug)]
+struct TerminalEndOfFileError {}
+
+impl error::TexError for TerminalEndOfFileError {
+    fn kind(&self) -> error::Kind {
+        error::Kind::FailedPrecondition
+    }
+
+    fn title(&self) -> String {
+        "end of file on the terminal".into()
+    }
+
+    fn notes(&self) -> Vec<error::display::Note> {
+        vec![r"the \read primitive needs a line from the terminal but the terminal has no more input".into()]
+    }
 }
 
 /// Get the `\ifeof` conditional expansion primitive.
